@@ -115,7 +115,7 @@ def _short(t):
         return 'missing'
     if len(t) == 4 and isinstance(t[3], bytes):
         a = np.frombuffer(t[3], dtype=np.dtype(t[1]))
-        return f'{t[1]}{t[2]} {np.array2string(a[:4], precision=17)}'
+        return f'{t[1]}{t[2]} ' + np.array2string(a[:4], precision=17).replace('\n', ' ')
     return repr(t[1:])[:80]
 
 
@@ -1432,3 +1432,306 @@ def cacgmm_fit_from(a, init, iterations):
     else:
         ini = {'initialization': init}
     return _m_cacgmm.CACGMMTrainer().fit(b['y'], iterations=iterations, **ini, **cacgmm_fit_kwargs(b))
+
+
+# ============================================================================= translator soundness corpus
+# Small functions that DO (m_*) or do NOT (p_*) modify their arguments through the routes the translator has to follow.
+# c20.corr runs each one on real arrays and requires: bytes of argument X changed  =>  the translator reports X.
+SYNTH_SRC = '''
+import numpy as np
+import operator
+from dataclasses import dataclass
+
+
+def m_aug(a, b):
+    a *= 2
+    return a
+
+
+def m_view_chain(a, b):
+    x = a.T
+    y = x[1:]
+    z = np.reshape(y[0], (-1,))
+    z[0] = 7
+    return b
+
+
+def m_loop_rotate(a, b):
+    x = np.zeros(3)
+    y = np.zeros(3)
+    z = a[0]
+    for i in range(4):
+        x, y, z = z, x, y
+    x += 1
+    return b
+
+
+def m_loop_break(a, b):
+    x = np.zeros(3)
+    for i in range(3):
+        x = a[i]
+        if i == 1:
+            break
+        x = np.zeros(3)
+    x[...] = 5
+    return x
+
+
+def m_while_continue(a, b):
+    i = 0
+    x = np.ones(3)
+    while i < 2:
+        i += 1
+        if i == 2:
+            x = b[0]
+            continue
+        x = x * 1
+    x -= 1
+    return None
+
+
+def m_try(a, b):
+    x = np.zeros(3)
+    try:
+        x = a[1]
+        raise ValueError()
+    except ValueError:
+        x += 1
+    return x
+
+
+def m_out_kw(a, b):
+    np.exp(b, out=b)
+    return b
+
+
+def m_out_pos_callee(a, b):
+    _helper_fill(b[1])
+    return a
+
+
+def _helper_fill(v):
+    v.fill(3.)
+
+
+def m_list_element(a, b):
+    xs = [a, np.zeros(2)]
+    xs[0][0, 0] = 9
+    return xs
+
+
+def m_list_append(a, b):
+    xs = []
+    xs.append(b)
+    for x in xs:
+        x[0] = 1
+    return None
+
+
+def m_dict_value(a, b):
+    d = {'k': a}
+    v = d['k']
+    v /= 2
+    return d
+
+
+def m_tuple_unpack(a, b):
+    t = (a, b)
+    x, y = t
+    y[0, 0] = -1
+    return x
+
+
+def m_comprehension(a, b):
+    rows = [r for r in a]
+    rows[1] *= 0
+    return rows
+
+
+def m_nested_function(a, b):
+    def inner(v):
+        v[0] = 4
+    inner(a)
+    return b
+
+
+def m_closure(a, b):
+    def inner():
+        b[1, 1] = 4
+    inner()
+    return a
+
+
+def m_lambda(a, b):
+    f = lambda v: v.fill(0.)
+    f(a[0])
+    return b
+
+
+def m_ifexp(a, b):
+    x = a if a.sum() > -1e300 else np.zeros(3)
+    x[0, 0] = 1
+    return x
+
+
+def m_boolop(a, b):
+    x = None or b
+    x[0] = 2
+    return x
+
+
+def m_ufunc_at(a, b):
+    np.add.at(a, [0], 1.)
+    return a
+
+
+def m_fill_diagonal(a, b):
+    sq = a[:3, :3]
+    np.fill_diagonal(sq, 0)
+    return sq
+
+
+def m_copyto(a, b):
+    np.copyto(b, 0.)
+
+
+def m_real_assign(a, b):
+    a.real = 3.
+
+
+def m_shape_assign(a, b):
+    b.shape = (3, 4)
+
+
+def m_asarray(a, b):
+    x = np.asarray(a)
+    x = np.ascontiguousarray(x)
+    x = np.squeeze(np.expand_dims(x, 0), 0)
+    x += 1
+    return x
+
+
+def m_einsum_view(a, b):
+    x = np.einsum('ij->ji', a)
+    x[0, 0] = 11
+    return x
+
+
+def m_setitem_dunder(a, b):
+    a.__setitem__(0, 1.)
+    b.__imul__(2)
+
+
+def m_operator_iadd(a, b):
+    operator.iadd(a, 1)
+
+
+def m_with(a, b):
+    with np.errstate(all='ignore'):
+        v = b[0]
+        v /= 2
+    return v
+
+
+def m_walrus(a, b):
+    if (x := a[0]) is not None:
+        x[0] = 1
+    return x
+
+
+def m_star_args(a, b):
+    _helper_star(*[a, b])
+
+
+def _helper_star(x, y):
+    y += 1
+
+
+def m_kwargs(a, b):
+    _helper_star(x=a, y=b)
+
+
+@dataclass
+class Box:
+    arr: np.ndarray = None
+
+    def scale(self):
+        self.arr *= 2
+
+    @property
+    def view(self):
+        return self.arr[0]
+
+
+def m_method(a, b):
+    Box(arr=a).scale()
+
+
+def m_property(a, b):
+    v = Box(arr=b).view
+    v[0] = 1
+
+
+def m_attribute_store(a, b):
+    box = Box()
+    box.arr = a
+    box.arr[0] = 1
+
+
+def m_generator(a, b):
+    for v in _gen(a):
+        v[0] = 3
+
+
+def _gen(a):
+    for r in a:
+        yield r
+
+
+def m_swap_through_loop_head(a, b):
+    x = np.zeros((4, 3))
+    for i in range(2):
+        x[0] = 1
+        x = a
+    return x
+
+
+def m_del_item(a, b):
+    xs = [a, b]
+    ys = xs
+    ys[0][0] = 1
+    return ys
+
+
+def p_copy(a, b):
+    x = np.copy(a)
+    x *= 2
+    return x
+
+
+def p_arith(a, b):
+    x = a * 2
+    x -= b
+    return x
+
+
+def p_fresh_list(a, b):
+    xs = [a, b]
+    xs[0] = None
+    return len(xs)
+
+
+def p_array_copy(a, b):
+    x = np.array(a, copy=True)
+    x[1:] *= 2
+    y = b.copy()
+    y.sort()
+    return x, y
+
+
+def p_loop_fresh(a, b):
+    acc = np.zeros(3)
+    for r in a:
+        acc += r
+    return acc
+'''
